@@ -443,9 +443,9 @@ K_SNA = dict(name="K-core::sna", package="rustzx-core", features="full",
 PROPS = {
     "C14": dict(
         level="proof",
-        claim="Kani/CBMC on the real loaders: for every 27-byte SNA header, every prior CPU state and both machines the registers, IFF, interrupt mode, border are exactly the format's decode (Err for mode 3), independent of halted/EI-shadow/prefix state of the receiver, and a snapshot of the other model is rejected; SNA RAM banks and the 128K latch incl. lock through the round-trip harnesses of C13; SZX Z80R decode incl. halted / EI-pending flags (bounded one-block files) and model mismatch rejection; Verus: restore_7ffd sets the latch regardless of a previous lock, ZXAyChip::set_regs restores the register file and programs the generator, every behind-the-bus RAM writer refreshes the display shadow (scan) and refresh covers every display bank (Kani).",
-        note="SZX part BOUNDED (one-block files, enumerated sizes; thorough tier only: ~10 min per harness; zlib pages rely on the unverified miniz_oxide). 'Two encodings of the same state behave identically' follows by transitivity through the decode obligations, not mechanised. SCR loader not separately contracted (size check + read into the bank mapped at 0x4000, read from source). SZX halted-PC convention left as implemented (format ambiguity). Defects repaired: model mismatch (SNA, SZX), locked receiver, AY generator not restored, receiver CPU state.",
-        verus=["ctl"],
+        claim="Kani/CBMC on the real loaders: for every 27-byte SNA header, every prior CPU state and both machines the registers, IFF, interrupt mode, border are exactly the format's decode (Err for mode 3), independent of halted/EI-shadow/prefix state of the receiver, and a snapshot of the other model is rejected; SNA RAM banks and the 128K latch incl. lock through the round-trip harnesses of C13; SZX Z80R decode incl. halted / EI-pending flags (bounded one-block files) and model mismatch rejection; Verus: restore_7ffd sets the latch regardless of a previous lock, ZXAyChip::set_regs restores the register file and programs the generator, every behind-the-bus RAM writer refreshes the display shadow (scan) and refresh covers every display bank (Kani); the real scr::load (Verus, unit scr): a 6912-byte file from a non-failing asset loads, its bytes become the start of the RAM bank mapped at 0x4000 with the rest of that bank and every other bank untouched, the display shadow is rebuilt afterwards, any other size is rejected with the machine unchanged.",
+        note="SZX part BOUNDED (one-block files, enumerated sizes; thorough tier only: ~10 min per harness; zlib pages rely on the unverified miniz_oxide). 'Two encodings of the same state behave identically' follows by transitivity through the decode obligations, not mechanised. SCR on a 128K whose shadow screen (bank 7) is displayed goes to bank 5 as implemented (the statement does not say which). SZX halted-PC convention left as implemented (format ambiguity). Defects repaired: model mismatch (SNA, SZX), locked receiver, AY generator not restored, receiver CPU state.",
+        verus=["ctl", "scr"],
         kani=[K_LOADERS, K_LOADERS_SZX, K_REFRESH],
         scans=[scan_ram_writers_refresh],
         explanation="loader decode obligations against the format descriptions",
@@ -455,7 +455,7 @@ PROPS = {
         level="proof",
         claim="Totality obligations: Verus proves termination and absence of panics/overflow/out-of-range access (its default obligations) for the host-trait loops read_exact/write_all under ANY host read/write behaviour, the TAP block reader and pulse state machine for all images, frame_registers, the VTX transposition, BlocksCount, ZXColor::from_bits / set_regs preconditions; Kani proves that sna::load returns Ok/Err for every header, reported size class, model combination and an injected asset failure at any call, and (BOUNDED) the same for one-block SZX files and <= 48-byte VTX headers; every K-z80 group additionally proves Z80::emulate free of panics for every CPU state and bus answer (thorough tier).",
         note="BOUNDED parts are reported under bounded_stand_ins. Third-party decoders (miniz_oxide, flate2/GzipAsset, delharc) are out of reach and assumed. Memory proportionality is the explicit size checks now in the loaders (SZX block size <= rest of file, VTX frame size cap), checked by the harness assertions. Twelve loader defects repaired (see known_findings.json fixed entries).",
-        verus=["hostio", "tape", "vtx", "screen"],
+        verus=["hostio", "tape", "vtx", "screen", "scr"],
         kani=[K_LOADERS, K_LOADERS_SZX, K_VTXLOAD, k_z80("K-z80::total", ["plain_all", "ed_all", "cbx_all"], tier="thorough")],
         explanation="panic-freedom and termination as verifier default obligations on the load paths",
         technique="contract-based deductive verification: Verus default obligations (no panic, no overflow, termination) + Kani/CBMC harnesses",
